@@ -433,6 +433,9 @@ func vC03Hang(c *vh.Case, n *vNet, sc *vC03Sc, o *vC03OpRun, base map[string]int
 		}
 	}
 	opname := vC03OpName(sc, o)
+	if frame == "unknown" && o.ChanOp && !o.TCallRet.IsZero() {
+		frame = "result-channel-never-closed" // nothing of the operation is left running, yet the consumer still waits
+	}
 	sig := "op-hang@" + opname + ":" + frame
 	if why != "idle" {
 		sig = "op-hang@" + opname + ":" + why + ":" + frame
@@ -826,7 +829,7 @@ func vC03RunOnce(t *testing.T, c *vh.Case, sc *vC03Sc, cm vC03Cancel) *vC03Out {
 		}
 		sort.Strings(left)
 		c.Clause("closed-empty")
-		sig := "closed-empty@" + strings.SplitN(left[0], " ", 2)[0]
+		sig := "closed-empty@" + strings.TrimLeft(strings.SplitN(left[0], "@", 2)[0], "./") // creating function, no line number
 		txt := ""
 		for _, g := range gs2 {
 			txt += g.Text + "\n\n"
@@ -1080,7 +1083,7 @@ func vC03Describe(c *vh.Case, sc *vC03Sc, cm vC03Cancel) {
 // ---- units --------------------------------------------------------------------------------------------
 
 func TestVerif_C03_ops(t *testing.T) {
-	vh.Run(t, vh.Spec{Prop: "C03", Unit: "ops", Quick: 1600, Thorough: 80000, CostMs: 12,
+	vh.Run(t, vh.Spec{Prop: "C03", Unit: "ops", Quick: 1600, Thorough: 80000, CostMs: 18,
 		Rule: "PRNG case = simulated network (N 0-150; K in {1,2,3,5,8,20}, alpha in {1,2,3,10}, beta in {1,2,3,K}; knowledge full/kbucket/sparse; 0-90% (or all) peers failing by dial error, slow dial error, request error, silence (10 s simulated read timeout), late answers (2-9.5 s), per-request flakiness, failing only the store RPC, answering once then silent; liars adding self / duplicates / strangers / 200 entries / themselves / mis-keyed records; value and provider records on some peers and locally; optional earlier lookups that filled the table; optional query/lookup event consumers; slow channel consumer) x one of GetClosestPeers, FindPeer, GetValue, SearchValue, FindProviders, FindProvidersAsync, PutValue, Provide(classic) x cancel mode {none, cancelled before the call, expired deadline, cancel at a log-uniform virtual instant 1 ms-60 s, ctx deadline 5 ms-61 s}; oracle in virtual time over the simulated wire/dial log + goroutine census; non-trivial = >= 1 RPC and (a contacted peer failed / was silent / late, or the cancellation hit the operation); distinct by (operation, cancel mode, shape, RPC count, outcome and return instant)",
 		Clauses: []string{"return-bounded", "cancel-prompt", "chan-closed", "chan-call-prompt", "quiet-after-return", "no-leak", "closed-empty"}},
 		func(c *vh.Case) {
@@ -1097,8 +1100,8 @@ func TestVerif_C03_ops(t *testing.T) {
 }
 
 func TestVerif_C03_cancelenum(t *testing.T) {
-	vh.Run(t, vh.Spec{Prop: "C03", Unit: "cancelenum", Quick: 160, Thorough: 5000, CostMs: 60,
-		Rule: "small PRNG scenarios (N 0-40, otherwise as unit ops, one operation each); the scenario is first run un-cancelled recording the virtual instants of all wire/dial log entries up to the return (boundary events, incl. the call and the return themselves), then re-run from the same seed with cancel() at a boundary instant -1 ns / +0 / +1 ns: quick 8 PRNG-chosen boundaries per case, thorough all of them (at most 150); same oracle as ops on every run; non-trivial = >= 3 distinct boundaries and at least one cancellation hit the operation with an RPC in flight; distinct by (operation, shape, number of boundaries, outcomes)",
+	vh.Run(t, vh.Spec{Prop: "C03", Unit: "cancelenum", Quick: 160, Thorough: 3000, CostMs: 130,
+		Rule: "small PRNG scenarios (N 0-40, otherwise as unit ops, one operation each); the scenario is first run un-cancelled recording the virtual instants of all wire/dial log entries up to the return (boundary events, incl. the call and the return themselves), then re-run from the same seed with cancel() at a boundary instant -1 ns / +0 / +1 ns: quick 8 PRNG-chosen boundaries per case, thorough all of them (at most 100); same oracle as ops on every run; non-trivial = >= 3 distinct boundaries and at least one cancellation hit the operation with an RPC in flight; distinct by (operation, shape, number of boundaries, outcomes)",
 		Clauses: []string{"return-bounded", "cancel-prompt", "chan-closed", "quiet-after-return", "no-leak", "closed-empty"}},
 		func(c *vh.Case) {
 			sc := vC03GenSc(c.R, 40)
@@ -1119,9 +1122,9 @@ func TestVerif_C03_cancelenum(t *testing.T) {
 				for i := range bounds {
 					pick = append(pick, i)
 				}
-				if len(pick) > 150 {
+				if len(pick) > 100 {
 					meta.Shuffle(len(pick), func(i, j int) { pick[i], pick[j] = pick[j], pick[i] })
-					pick = pick[:150]
+					pick = pick[:100]
 				}
 			} else {
 				for i := 0; i < 8; i++ {
@@ -1156,7 +1159,7 @@ func TestVerif_C03_cancelenum(t *testing.T) {
 }
 
 func TestVerif_C03_optprov(t *testing.T) {
-	vh.Run(t, vh.Spec{Prop: "C03", Unit: "optprov", Quick: 128, Thorough: 6000, CostMs: 40,
+	vh.Run(t, vh.Spec{Prop: "C03", Unit: "optprov", Quick: 128, Thorough: 6000, CostMs: 30,
 		Rule: "Provide with EnableOptimisticProvide on PRNG networks (N 1-150, K in {1,2,3,5,8,20}, jobs pool 0/1/3/default) whose network-size estimator was warmed up by >= 5 completed GetClosestPeers (or, when N < K, by 6 synthetic Track calls claiming a network of K..2000 peers); afterwards the peers start failing as in unit ops; 1-3 concurrent provides; cancel modes as ops plus cancel at a boundary instant of the un-cancelled run; forced classes by case index: every 16th case all peers fail, every 16th is cancelled before the call, every 16th uses K <= 2; non-trivial = estimator ready and >= 1 ADD_PROVIDER message or a failing peer contacted; distinct by (shape, cancel mode, RPC count, outcomes)",
 		Clauses: []string{"return-bounded", "cancel-prompt", "quiet-after-return", "no-leak", "closed-empty"}},
 		func(c *vh.Case) {
